@@ -43,6 +43,14 @@ CHECKS = {
             "Every generated parameter set must return (within a traced line budget) a scenario with exactly the requested counts, topology, host configurations, definitions, sensitive hosts, firewall and costs.", "3 C15"),
     "C16": ("witness search on the reference model + replay of the witness on the real environment with forced draws; real-environment closure as fallback",
             "For every generated parameter set and every shipped file a goal-reaching plan is found and replayed through step() until done=True; unsolvability is only reported from a closure over the real environment.", "3 C16"),
+    "C17": ("round-trip PBT: generated document -> YAML (style/spelling varied) -> load_scenario -> field-by-field comparison with the source; C02-oracle walk on nasim.load(path)",
+            "Every valid generated document and shipped file must load and reproduce the file (hosts, deny-lists with tuple keys, allow-lists, definitions, costs, limit); documents with deny-lists / one-directional rules are additionally walked with the firewall oracle on the loaded environment.", "3 C17"),
+    "C18": ("fault injection: catalogue of ~125 single-rule mutators (and pairs) applied to every valid base document; accept = violation",
+            "Each documented rule of the statement has >= 1 mutator; every mutant of every base (9 shipped + random documents) must make load_scenario raise.", "3 C18"),
+    "C19": ("differential on generated interleavings: A alone vs A' interleaved with construction/reset/step/drop of other environments",
+            "After every foreign operation A' is re-read (state, last observation, readable decodes, rendered arrays) and must equal the solo reference; every step of A' must equal the reference step; benchmark parameter dicts are not leaked between calls.", "3 C19"),
+    "C20": ("exact optimisation on the reference model's monotone state graph + witness replay on the real environment",
+            "The reward-maximal and the host-minimal goal-reaching episodes of small in-domain scenarios are computed exactly on the model and replayed on the real environment; the real total must not exceed get_score_upper_bound(), get_minimum_hops() must not exceed the compromised hosts of the real final state.", "3 C20"),
 }
 
 NOT_YET = {}
@@ -63,7 +71,7 @@ def main():
                 evidence_file=f"evidence/{pid}.json",
                 replay_cmd_template=f"./check {pid} --replay {{path}}",
                 engine="nvf",
-                level_claimed=dict(category="exploration", text=text, design_ref=f"DESIGN.md section {ref}"),
+                level_claimed=dict(category="fault_enumeration" if pid == "C18" else "exploration", text=text, design_ref=f"DESIGN.md section {ref}"),
                 level_note=EXTRA_NOTE.get(pid, DYN_NOTE),
                 technique=tech))
         else:
@@ -88,6 +96,10 @@ def main():
 EXTRA_NOTE = {
     "C14": "Trusted base: canonical fingerprint function (sets sorted), subprocess plumbing. Samples 3 (thorough 8) PYTHONHASHSEED values; bounded parameter domain (<= 14 / 40 hosts).",
     "C15": "Trusted base: the validity predicate written from the generator's documentation and the property statement; termination = within 2e6 (thorough 5e6) traced line events. Bounded: num_hosts <= 12 (thorough 60), services <= 5 (10).",
+    "C17": "Trusted base: the document generator's notion of a valid file (tutorial docs/source/tutorials/creating_scenarios.rst), PyYAML safe_dump. Documents <= 7 hosts.",
+    "C18": "Trusted base: the mutator catalogue (each mutant breaks exactly one rule named in the statement). Bases: 9 shipped + 64 (thorough 640) random documents; pairs sampled.",
+    "C19": "Trusted base: the solo reference run in the same process; sequential interleavings only (no threads in NASim). Scenarios <= 10 hosts, <= 20 operations of A.",
+    "C20": "Trusted base: reference model for the search (violations need a real-environment witness). Exact search <= 7 hosts / 6000 model states; larger scenarios only with greedy witnesses.",
     "C16": "Trusted base: reference model only proposes plans; verdicts come from the real environment (replay or closure). Bounded parameter domain as C15.",
 }
 
